@@ -140,7 +140,8 @@ namespace sim
 			return;
 		}
 
-		int num_methods = unsigned(m_out_buffer[1]);
+		// the byte is an unsigned count (a plain char may be signed)
+		int const num_methods = std::uint8_t(m_out_buffer[1]);
 
 		// read list of auth-methods
 		asio::async_read(m_client_connection, asio::buffer(&m_out_buffer[0],
